@@ -1,22 +1,16 @@
-// translators/fw/scope — regenerates coq/Fw/GenScope.v from the Go sources of the repository under verification.
+// translators/fw/scope — CROSS-CHECK of the observed face-scope table (coq/FwScope/GenScope.v is generated from the scopes the real
+// transport constructors assign, see translators/fw/scope_table.py): reads, with go/parser + go/ast (std only), the scope-setting
+// statements of every transport constructor of fw/face and the switch of defn.URI.Scope(), and prints what they give for a
+// loopback / non-loopback remote address:
 //
-// Face scope (Local / NonLocal) is fixed when a transport is constructed. This program reads, with go/parser + go/ast
-// (std only), the scope-setting statements of every transport constructor of fw/face and the switch of
-// defn.URI.Scope() (fw/defn/uri.go), and writes them as a table of small expressions (Fw/ScopeDefs.v: sexpr):
+//	ast <constructor id> <constructor> <remote is loopback 0|1> <1 local | 0 non-local | ? not understood>
 //
-//	SLocal | SNonLocal                    defn.Local / defn.NonLocal
-//	SIfLoop a b                           if the remote address parsed from remoteURI is a loopback IP then a else b
-//	SUriScope                             remoteURI.Scope()  (evaluated through the translated switch for the URI type)
-//	SOther                                anything this translator does not understand (the classification theorem then fails)
-//
-// A constructor body is interpreted statement by statement for the two places a scope can live: a local variable (whichever
-// identifier is passed as the 4th argument of makeTransportBase) and the scope field of the transport (whichever variable
-// makeTransportBase is called on). Nothing is matched by local names: the transport variable, the scope variable, the remote URI
-// variable (1st argument of makeTransportBase) and the parsed-IP variable (assigned from net.ParseIP of something of the remote
-// URI) are all discovered structurally (docs/ROBUST_TRANSLATORS.md).
-// A constructor (or the URI switch) this program does not understand keeps the rule of the committed reference
-// (coq/Fw/GenScope.reference) and a `note:` line is printed; that is not an alarm: the harness calls the real constructors.
-// usage: go run main.go <repo> <reference> <out.v>     (writes only if the content changed)
+// Nothing is matched by local names (transport variable = whatever makeTransportBase is called on, scope variable = its 4th
+// argument, remote URI variable = its 1st argument, IP variable = anything assigned from net.ParseIP of the remote URI).
+// Anything not POSITIVELY recognised yields `?`: a statement of a kind this reader does not interpret that mentions the scope
+// field / scope variable, or any other method called directly on the transport variable (it could set the scope), makes the
+// result unknown. The output is only compared with the observations; `?` or a disagreement is a note, never an alarm.
+// usage: go run main.go <repo>
 package main
 
 import (
@@ -26,7 +20,6 @@ import (
 	"go/token"
 	"os"
 	"path/filepath"
-	"sort"
 	"strings"
 )
 
@@ -234,7 +227,72 @@ func (in *interp) stmt(s ast.Stmt) {
 		}
 	case *ast.BlockStmt:
 		in.stmts(v.List)
+	case *ast.ReturnStmt:
+	default:
+		// a statement of a kind not interpreted here: if it could touch the scope, the result is unknown
+		if in.touchesScope(s) {
+			in.env["t.scope"] = "SOther"
+			if in.scopeVar != "" {
+				in.env["scope"] = "SOther"
+			}
+		}
 	}
+	// whatever the kind: another method called directly on the transport variable could set the scope
+	if es, ok := s.(*ast.ExprStmt); ok {
+		if c, ok := es.X.(*ast.CallExpr); ok {
+			if sel, ok := c.Fun.(*ast.SelectorExpr); ok && sel.Sel.Name != "makeTransportBase" {
+				if id, ok := sel.X.(*ast.Ident); ok && id.Name == in.transVar && in.transVar != "" && methodMayTouchScope(sel.Sel.Name) {
+					in.env["t.scope"] = "SOther"
+				}
+			}
+		}
+	}
+}
+
+// all parsed files of package face (to look at the bodies of methods called on the transport)
+var pkgParsed []*ast.File
+
+// a method of the package whose body mentions a field called scope (or that cannot be found) may set the scope
+func methodMayTouchScope(name string) bool {
+	found := false
+	for _, f := range pkgParsed {
+		for _, d := range f.Decls {
+			fd, ok := d.(*ast.FuncDecl)
+			if !ok || fd.Recv == nil || fd.Name.Name != name || fd.Body == nil {
+				continue
+			}
+			found = true
+			touches := false
+			ast.Inspect(fd.Body, func(x ast.Node) bool {
+				if sel, ok := x.(*ast.SelectorExpr); ok && sel.Sel.Name == "scope" {
+					touches = true
+				}
+				return !touches
+			})
+			if touches {
+				return true
+			}
+		}
+	}
+	return !found
+}
+
+func (in *interp) touchesScope(n ast.Node) bool {
+	found := false
+	ast.Inspect(n, func(x ast.Node) bool {
+		switch v := x.(type) {
+		case *ast.SelectorExpr:
+			if id, ok := v.X.(*ast.Ident); ok && id.Name == in.transVar && v.Sel.Name == "scope" {
+				found = true
+			}
+		case *ast.Ident:
+			if in.scopeVar != "" && v.Name == in.scopeVar {
+				found = true
+			}
+		}
+		return !found
+	})
+	return found
 }
 
 // the value returned by a statement list of URI.Scope(): `return X` or `if <loopback> { return A }; return B`
@@ -362,73 +420,56 @@ func discover(fd *ast.FuncDecl) (transVar, remoteVar, scopeVar string, found boo
 	return
 }
 
-type reference struct {
-	ctor    map[string][2]string // constructor name -> (uri type, rule)
-	cases   map[string]string
-	dflt    string
-}
-
-func readReference(path string) reference {
-	r := reference{ctor: map[string][2]string{}, cases: map[string]string{}}
-	b, err := os.ReadFile(path)
-	if err != nil {
-		return r
-	}
-	for _, l := range strings.Split(string(b), "\n") {
-		f := strings.SplitN(strings.TrimSpace(l), " ", 4)
-		switch {
-		case len(f) == 4 && f[0] == "ctor":
-			r.ctor[f[1]] = [2]string{f[2], f[3]}
-		case len(f) >= 3 && f[0] == "uricase":
-			r.cases[f[1]] = strings.Join(f[2:], " ")
-		case len(f) >= 2 && f[0] == "uridefault":
-			r.dflt = strings.Join(f[1:], " ")
+// value of a rule for a remote address that is / is not loopback: "1", "0" or "?"
+func eval(rule string, loop bool, cases map[string]string, def string, utype string) string {
+	rule = strings.TrimSpace(rule)
+	switch {
+	case rule == "SLocal":
+		return "1"
+	case rule == "SNonLocal":
+		return "0"
+	case rule == "SUriScope":
+		r, ok := cases[utype]
+		if !ok {
+			r = def
 		}
-	}
-	return r
-}
-
-func main() {
-	if len(os.Args) != 4 {
-		die("usage: main <repo> <reference> <out.v>")
-	}
-	repo, out := os.Args[1], os.Args[3]
-	ref := readReference(os.Args[2])
-	note := func(format string, a ...any) { fmt.Printf("note: translator: "+format+"; reference kept; the scope harness (real constructors) decides\n", a...) }
-	fset := token.NewFileSet()
-
-	// URI types in declaration order (iota)
-	uri := parse(fset, filepath.Join(repo, "fw/defn/uri.go"))
-	var uriTypes []string
-	for _, d := range uri.Decls {
-		gd, ok := d.(*ast.GenDecl)
-		if !ok || gd.Tok != token.CONST {
-			continue
+		if strings.Contains(r, "SUriScope") {
+			return "?"
 		}
-		isBlock := false
-		for _, sp := range gd.Specs {
-			vs := sp.(*ast.ValueSpec)
-			if selText(vs.Type) == "URIType" {
-				isBlock = true
-			}
-		}
-		if isBlock {
-			for _, sp := range gd.Specs {
-				for _, n := range sp.(*ast.ValueSpec).Names {
-					uriTypes = append(uriTypes, n.Name)
+		return eval(r, loop, cases, def, utype)
+	case strings.HasPrefix(rule, "SIfLoop ("):
+		// SIfLoop (a) (b) with balanced parentheses
+		depth, start, parts := 0, -1, []string{}
+		for i, ch := range rule {
+			if ch == '(' {
+				if depth == 0 {
+					start = i + 1
+				}
+				depth++
+			} else if ch == ')' {
+				depth--
+				if depth == 0 {
+					parts = append(parts, rule[start:i])
 				}
 			}
 		}
+		if len(parts) == 2 {
+			if loop {
+				return eval(parts[0], loop, cases, def, utype)
+			}
+			return eval(parts[1], loop, cases, def, utype)
+		}
 	}
-	if len(uriTypes) == 0 {
-		die("URIType constants not found in fw/defn/uri.go")
-	}
-	idx := map[string]int{}
-	for i, n := range uriTypes {
-		idx[n] = i
-	}
+	return "?"
+}
 
-	// defn.URI.Scope(): the switch on the receiver's type field
+func main() {
+	if len(os.Args) != 2 {
+		die("usage: main <repo>")
+	}
+	repo := os.Args[1]
+	fset := token.NewFileSet()
+	uri := parse(fset, filepath.Join(repo, "fw/defn/uri.go"))
 	cases := map[string]string{}
 	def := "SOther"
 	if sc := findFunc(uri, "Scope", "URI"); sc != nil && len(sc.Recv.List[0].Names) == 1 {
@@ -457,33 +498,8 @@ func main() {
 			}
 		}
 	}
-	bad := def == "SOther" || len(cases) == 0
-	for k, v := range cases {
-		if _, ok := idx[k]; !ok || strings.Contains(v, "SOther") {
-			bad = true
-		}
-	}
-	if bad && ref.dflt != "" {
-		note("defn.URI.Scope() not understood")
-		cases, def = ref.cases, ref.dflt
-	}
-
-	// constructors
-	type ctor struct {
-		id         int
-		name, file string
-	}
-	ctors := []ctor{
-		{0, "MakeUnicastTCPTransport", "unicast-tcp-transport.go"},
-		{1, "AcceptUnicastTCPTransport", "unicast-tcp-transport.go"},
-		{2, "MakeUnicastUDPTransport", "unicast-udp-transport.go"},
-		{3, "MakeUnixStreamTransport", "unix-stream-transport.go"},
-		{4, "NewWebSocketTransport", "web-socket-transport.go"},
-		{5, "MakeInternalTransport", "internal-transport.go"},
-		{6, "MakeMulticastUDPTransport", "multicast-udp-transport.go"},
-		{7, "MakeNullTransport", "null-transport.go"},
-	}
-	// a constructor may have moved to another file of the package: look in all of them
+	ctors := []string{"MakeUnicastTCPTransport", "AcceptUnicastTCPTransport", "MakeUnicastUDPTransport", "MakeUnixStreamTransport",
+		"NewWebSocketTransport", "MakeInternalTransport", "MakeMulticastUDPTransport", "MakeNullTransport"}
 	pkgFiles, _ := filepath.Glob(filepath.Join(repo, "fw/face", "*.go"))
 	var parsed []*ast.File
 	for _, pf := range pkgFiles {
@@ -492,43 +508,17 @@ func main() {
 		}
 		parsed = append(parsed, parse(fset, pf))
 	}
-	var b strings.Builder
-	b.WriteString("(* Fw/GenScope.v — GENERATED by translators/fw/scope/main.go from fw/face/*-transport.go and fw/defn/uri.go; do not edit. *)\n")
-	b.WriteString("From Coq Require Import List NArith.\nFrom Fw Require Import ScopeDefs.\nImport ListNotations.\nOpen Scope N_scope.\n\n")
-	b.WriteString("(* URIType constants of fw/defn/uri.go, in declaration order *)\n")
-	for i, n := range uriTypes {
-		fmt.Fprintf(&b, "Definition %s : N := %d.\n", n, i)
-	}
-	b.WriteString("\n(* func (u *URI) Scope(): the switch on the URI type (canonical URIs) and the value after the switch *)\n")
-	b.WriteString("Definition uri_scope_cases : list (N * sexpr) :=\n  [")
-	keys := make([]string, 0, len(cases))
-	for k := range cases {
-		if _, ok := idx[k]; ok {
-			keys = append(keys, k)
-		}
-	}
-	sort.Slice(keys, func(i, j int) bool { return idx[keys[i]] < idx[keys[j]] })
-	for i, k := range keys {
-		if i > 0 {
-			b.WriteString(";\n   ")
-		}
-		fmt.Fprintf(&b, "(%s, %s)", k, cases[k])
-	}
-	b.WriteString("].\n")
-	fmt.Fprintf(&b, "Definition uri_scope_default : sexpr := %s.\n", def)
-	b.WriteString("\n(* (constructor, URI type of its remote URI, the scope it gives the transport) *)\n")
-	b.WriteString("Definition ctor_rules : list (N * N * sexpr) :=\n  [")
-	for i, c := range ctors {
+	pkgParsed = parsed
+	for id, name := range ctors {
 		var fd *ast.FuncDecl
 		for _, f := range parsed {
-			if fd = findFunc(f, c.name, ""); fd != nil {
+			if fd = findFunc(f, name, ""); fd != nil {
 				break
 			}
 		}
 		rule, utype := "SOther", "unknownURI"
 		if fd != nil {
-			tv, rv, sv, ok := discover(fd)
-			if ok {
+			if tv, rv, sv, ok := discover(fd); ok {
 				in := &interp{env: map[string]string{}, ipFromRemote: map[string]bool{}, remoteVar: rv, transVar: tv, scopeVar: sv}
 				in.stmts(fd.Body.List)
 				if r, ok := in.env["t.scope"]; ok {
@@ -537,30 +527,12 @@ func main() {
 				utype = remoteURIType(fd, rv)
 			}
 		}
-		if _, ok := idx[utype]; !ok {
-			utype = "unknownURI"
-		}
-		if strings.Contains(rule, "SOther") || (strings.Contains(rule, "SUriScope") && utype == "unknownURI") {
-			if r, ok := ref.ctor[c.name]; ok {
-				note("scope statements of constructor %s not understood", c.name)
-				utype, rule = r[0], r[1]
-				if _, ok := idx[utype]; !ok {
-					utype = "unknownURI"
-				}
+		for _, lb := range []bool{true, false} {
+			b := "0"
+			if lb {
+				b = "1"
 			}
+			fmt.Printf("ast %d %s %s %s\n", id, name, b, eval(rule, lb, cases, def, utype))
 		}
-		if i > 0 {
-			b.WriteString(";\n   ")
-		}
-		fmt.Fprintf(&b, "(%d (* %s *), %s, %s)", c.id, c.name, utype, rule)
 	}
-	b.WriteString("].\n")
-	text := b.String()
-	if old, err := os.ReadFile(out); err == nil && string(old) == text {
-		return
-	}
-	if err := os.WriteFile(out, []byte(text), 0o644); err != nil {
-		die("write %s: %v", out, err)
-	}
-	fmt.Println("updated", out)
 }
